@@ -139,4 +139,40 @@ CHECKS = {
              "covers": ["C19:done"]},
         ],
     },
+    "C16": {
+        "explanation": "Symbolic execution of PrintCtx.appendTimestamp, setentry, SetUTCMode/SetTimeFormat, printTimestamp in the three formats, "
+                       "with (time.Time).AppendFormat replaced by a recording stub whose token is an injective image of (wall, ext, zone, "
+                       "layout). The record's instant is time.Unix(sec, nsec) for symbolic sec and nsec in one of three zones, passed to "
+                       "WriteThru; the date/time/microseconds/local-time flag bits are symbolic; the UTC mode is reached through SetUTCMode "
+                       "calls with 0/1/2 symbolic booleans; the layout through SetTimeFormat with 0/1/2 arguments including \"\". The oracle "
+                       "formats the expected instant (converted with UTC() iff mode==UTC or (mode unset and LlocalTime clear)) with the "
+                       "expected layout through the same function, so equality of bytes is equality of instant representation, zone and "
+                       "layout; without a logger layout the layout must be one of the library's flag-selected layouts containing the "
+                       "selected parts. JSON/logfmt wrap the text in quotes after the time key, colored appends '|'.",
+        "bounds": {"quick": "all sec in (-2^40, 2^40), all nsec, 3 zones, 16 flag combinations, <=1 SetUTCMode call, <=2 layouts, 3 formats",
+                   "thorough": "<=2 SetUTCMode calls"},
+        "outside": "Parse(layout, Format(layout, t)) == t for all instants/zones/layouts: the standard library's calendar arithmetic is not encoded "
+                   "(natively the replay runs the real formatter)",
+        "assumptions": ["time formatting stubbed by an injective token (engine); time.Unix/In/UTC are the real code"],
+        "runs": [
+            {"harness": "VH_C16", "quick": {"utccalls": 1}, "thorough": {"utccalls": 2}, "covers": ["C16:printed"]},
+        ],
+    },
+    "C03": {
+        "explanation": "Symbolic execution of all of writers.go (dualWriter, LWs, logwr, filewr), the Entry writer methods and their Opt twins "
+                       "through New(...), findWriter and printOut. A pool of four distinct writers (two plain io.Writer, one LogWriter, one "
+                       "LogWriter+LevelSettable) plus the recording stdout/stderr sinks; a sequence of operations chosen by the solver among "
+                       "the 11 writer operations with any pool writer or nil and a level among built-in and two registered custom levels "
+                       "(one for the error device); the harness keeps the configuration the sequence denotes (set replaces, add appends, "
+                       "remove deletes, reset restores defaults) and a probe record of a chosen severity must reach exactly the writers the "
+                       "routing rule selects, each once; a LevelSettable destination must have been told the severity before its Write.",
+        "bounds": {"quick": "sequences of <=2 operations (54508 paths) on a fresh logger; New(...) with <=2 writer options; 10 probe severities",
+                   "thorough": "sequences of 3 operations; New(...) with <=3 options"},
+        "outside": "longer sequences; OffLevel probes (discarded by design)",
+        "assumptions": ["os.Stdout/os.Stderr are recording sinks"],
+        "runs": [
+            {"harness": "VH_C03", "quick": {"steps": 2}, "thorough": {"steps": 3}, "covers": ["C03:probed"]},
+            {"harness": "VH_C03N", "quick": {"opts": 2}, "thorough": {"opts": 3}, "covers": ["C03N:probed"]},
+        ],
+    },
 }
